@@ -27,7 +27,7 @@ CLAIMED = {
             "The same seeded statements over medium tables in 5-40 batches and Parquet, executed by worker processes with different thread counts and repeated; every answer must equal the 1-thread first answer. Evidence counts distinct row-arrival orders observed.",
             "Schedules are sampled, not enumerated."),
     "C11": ("exploration", "invariant monitor over real Parquet footers + independent inventory oracle",
-            "Generated file sets x node counts: interval-cover, byte/row conservation, canonical order, permutation/relocation invariance and digest sensitivity are asserted on every enumeration; held on the sample explored.",
+            "Generated file sets x node counts: interval-cover, byte/row conservation, canonical order, permutation/relocation invariance and digest sensitivity are asserted on every enumeration, and one file is rewritten in place between two enumerations of the same path (mtime new / kept / moved earlier); held on the sample explored.",
             "Trusts the parquet crate's footer reader used by the harness as the independent inventory."),
     "C12": ("exploration", "exhaustive small-instance enumeration vs brute-force optimum + random invariant monitor",
             "Every multiset of <=7 (quick) / <=9 (thorough) sizes from a 7-value alphabet x N<=4/5 is compared with the brute-force optimal makespan in exact integer arithmetic; partition/totals/determinism monitored on large random instances.",
@@ -62,7 +62,7 @@ CLAIMED = {
     "C04": ("exploration", "layout differential monitor: the same rows as one batch, many batches, Parquet in varied files/row groups/encodings, every fast-path gate on both sides",
             "Statements whose shape selects a fast path (dense/morsel aggregation, streaming scan, runtime filters, dictionary strings, scalar-aggregate fast path) over the same rows in 5 physical layouts; every layout must give the memory single-batch answer, and a layout may not fail where another answers.",
             "The single-batch memory answer is itself judged against DataFusion/SQLite by C01."),
-    "C08": ("exploration", "memory-limit differential monitor: unlimited run vs runs under 5 budgets down to 64 bytes with spill, + two concurrent spilling processes sharing one spill path",
+    "C08": ("exploration", "memory-limit differential monitor: unlimited run vs runs under 7 budgets from 3 MiB down to 64 bytes with spill, + two concurrent spilling processes sharing one spill path",
             "Sort / aggregate / join statements over tables that exceed the budget: the limited run must return the unlimited answer (tie-aware for ORDER BY ... LIMIT) or an explicit error, never other rows.",
             "Spill is forced by budgets far below the data size; the evidence counts runs that actually spilled (MemoryPool::spilled > 0)."),
     "C09": ("exploration", "distributed-vs-single-node differential over an in-process transport that executes fragments on a separate context",
@@ -140,7 +140,7 @@ LATE = {
             "GetFlightInfo + DoGet vs POST /sql for statements of all shapes, > 4096 rows, empty results and errors, modes auto/force/off, 1-3 nodes: same schema, rows, decision, trailer row count; malformed tickets refused.",
             "Rust Flight client (arrow-flight/tonic) only."),
     "C35": ("exploration", "front-door monitor on in-process nodes",
-            "503 before/after-failed load on /sql and /fragment; Arrow/JSON/CSV bodies decode to ctx.sql's rows; auto mode answers locally with a reason on a single member and after the peers left, every distributed answer names >= 2 shards and equals the single-node answer; no 200 after a distributed failure (differing peer copy, dead peer still listed).",
+            "503 before/after-failed load on /sql and /fragment; Arrow/JSON/CSV bodies decode to ctx.sql's rows; auto mode answers locally with a reason on a single member and after the peers left, auto mode never distributes with fewer than 2 members up and every distributed answer equals the single-node answer; no 200 after a distributed failure (differing peer copy, dead peer still listed) unless the distribution header shows the peer was given no work.",
             "Whether a shape is exactly mergeable is judged by the distributed answer equalling the single-node one, not by a syntactic classification."),
     "C36": ("exploration", "offline checker: observations log judged by a python3-stdlib model of the documented Trino values",
             "About 150 call shapes of 120 functions x hostile argument pools with NULLs through a column path and a literal path.",
